@@ -934,6 +934,9 @@ class FloatArray(ArrayField[_FPV], Generic[_FPV]):
         if isinstance(value, ArrayField):
             if _VALIDATION_ENABLED.get():
                 self.validate_array(value)
+                # the source array may hold infinity (it was filled from received bytes or
+                # without validation): refused like the same values in a list
+                self.validate_many(value[:])
             setattr(
                 obj, self._private_name, getattr(value._bound_obj, value._private_name)
             )
